@@ -650,9 +650,8 @@ def lexStringBody (q : Nat) (triple : Bool) (pos : Nat) : List Nat → Except (K
     if c = 10 && !triple then .error (.eolInString, pos + 1)
     else if c = q then
       if triple then
-        match rest with
-        | a :: b :: rest' => if a = q && b = q then .ok (rest', pos + 3) else lexStringBody q triple (pos + 1) rest
-        | _ => lexStringBody q triple (pos + 1) rest
+        if headIs (· = q) rest && headIs (· = q) rest.tail then .ok (rest.drop 2, pos + 3)
+        else lexStringBody q triple (pos + 1) rest
       else .ok (rest, pos + 1)
     else lexStringBody q triple (pos + 1) rest
 
